@@ -31,6 +31,7 @@
                               `text-faithful-split-tab`: a code span keeps the virtual spaces of a
                               split tab as content, characters without bytes in the source).
     `doc_text_faithful_all`   the text clause alone, spelled out.
+    `doc_special_markup_all`  every `TextSpecial` selects its `markup` (`\\*`, `&amp;`), for all sources.
   Ingredients (Lemmas/C05Tabs*.lean): Defs (`MapT`: the translation is monotone everywhere and a
   shift on every stretch that starts with a solid character and holds no line feed; `VirtSp`: the
   virtual-space entries of a `get_lines` table are spaces at line starts of the inline text; `RIv`),
@@ -197,6 +198,46 @@ theorem doc_text_faithful_all (cfg : DocCfg) (src : List Char) (t : Node)
     obtain ⟨_, _, _, _, _, _, _, _, ht⟩ := hn
     exact ht)
 
+/-- the markup clause at every node of a `PostV` tree (needs a recursion principle on the tree:
+    `nsize`) -/
+theorem special_of_postV {src : List Char} : ∀ (k : Nat) (n : Node), nsize n ≤ k → ∀ ex,
+    PostV src ex n →
+    Every (fun n => ∀ ct mu info, n.kind = .inl (.special ct mu info) → ∃ a b, n.range = some (a, b) ∧
+      ∀ w, Lines.slice src a b = .ok w → '\n' ∉ w → '\r' ∉ w → w = mu) n := by
+  intro k
+  induction k with
+  | zero => intro n hn; rw [nsize_eq] at hn; omega
+  | succ k ih =>
+    intro n hn ex hp
+    rw [ts_postV_iff] at hp
+    obtain ⟨⟨a, b, hr, _, _, _, hs⟩, hch⟩ := hp
+    refine .mk n ?_ ?_
+    · intro ct mu info hk
+      exact ⟨a, b, hr, fun w hw n1 n2 =>
+        hs ct mu info hk w ((C05R.cut_iff_lines src a b w).mp hw) ⟨n1, n2⟩⟩
+    · intro c hc
+      refine ih c ?_ _ (hch c hc)
+      have := nsize_le_of_mem hc
+      rw [nsize_eq] at hn
+      omega
+
+/-- **`doc_special_markup_all`**: for ALL sources, every `TextSpecial` node (backslash escape, entity
+    reference) whose range selects a string without line break selects exactly its `markup`. -/
+theorem doc_special_markup_all (cfg : DocCfg) (src : List Char) (t : Node)
+    (hsmall : 4 * Lines.byteLen src + 8 < 2147483648) (hpara : cfg.hasPara = true)
+    (hmk : SolidMarkers cfg.inlineChain) (h : parseDoc cfg src = .ok t) :
+    Every (fun n => ∀ ct mu info, n.kind = .inl (.special ct mu info) → ∃ a b, n.range = some (a, b) ∧
+      ∀ w, Lines.slice src a b = .ok w → '\n' ∉ w → '\r' ∉ w → w = mu) t := by
+  unfold parseDoc at h
+  split at h
+  · cases h
+  · rename_i root refs hb
+    obtain ⟨hr, hg⟩ := Block.parseBlocks_geo3 (cfg := cfg.blockCfg) hpara (Block.inlSpec3_ptabsF src) hsmall hb
+    have hg' : Block.RangedB (PInlFV (cfg.inlineCfg refs) src) src root :=
+      hg.imp (fun c m a b hab hp => pinlFV_of_ptabsF _ hmk c m a b hab hp)
+    exact special_of_postV _ t (Nat.le_refl _) false
+      (ts_afterBlocks_post hr hg' (Block.parseBlocks_inlNoRange hb) h)
+
 /-! ## non-vacuity and witnesses -/
 
 /-- the shipped markers are solid single bytes -/
@@ -273,10 +314,6 @@ OPEN / what is left of C05 at whole-document level after this file.
     counterexample is known (with `.emph ' '` the left-over delimiters are merged by the join pass
     into a text that holds the line feed); removing the hypothesis would need a weaker marker
     clause (`Sel` instead of the exact `Cut`) in the delimiter matching.
-  * `doc_special_markup` (every `TextSpecial` selects its markup; Props/C05Rest.lean, no split tab)
-    for all sources: `PostV` (Lemmas/C05TabsDefs3.lean) carries the clause, `ts_afterBlocks_post`
-    (Lemmas/C05TabsTextSplice.lean) proves `PostV src false t`; only the conversion to an
-    `Every`-statement is not written.
 -/
 
 end MdIt.Pipeline
